@@ -101,6 +101,10 @@ def run_unicast(case, chooser=None):
         ctx.wait(1 * MS)
         t0 = net.w.now
         hdr = H.RF24NetworkHeader(dst, case["mtype"])
+        if case.get("hdr_from") is not None:
+            # the reply idiom: the header object of a frame read earlier is re-used (to_node = from_node), so it
+            # already names an origin - the peer ("dst") or any other address - when it is handed to send()/write()
+            hdr.from_node = dst if case["hdr_from"] == "dst" else case["hdr_from"]
         buf = bytearray(msg) if case.get("buftype") == "bytearray" else msg
         if case["api"] == "send":
             obs["ret"] = n.send(hdr, buf)
@@ -283,6 +287,10 @@ def build_items(tier, seed):
                     cases.append(dict(topo=topo, src=s, dst=d, mlen=mlen, mtype=mtype, frag=True, cost=c, lat=l,
                                       api="send" if k % 3 else "write", seed=seed, id0=(k * 7919) & 0xFFFF,
                                       buftype="bytearray" if k % 2 else "bytes"))
+                    if (c, l) == timing[0] and mlen in (0, 24, 25, 144):
+                        # the same message with a re-used header that already names an origin (the peer's / a third node's address)
+                        k += 1
+                        cases.append(dict(cases[-1], hdr_from="dst" if k % 2 else 0o3, id0=(k * 7919) & 0xFFFF))
                 if mlen <= 24:
                     k += 1
                     cases.append(dict(topo=topo, src=s, dst=d, mlen=mlen, mtype=TYPES[k % len(TYPES)], frag=False,
